@@ -55,6 +55,11 @@ inductive OpX
   | witListEdit (t : Target) (i : Option Nat) (st : WitStack)
   /-- `iw.scriptWitness.stack[j] = b` / `iw.scriptWitness.stack.append(b)` for a `CTxInWitness` object `iw` -/
   | stackEdit (t : Target) (j : Option Nat) (b : Bytes)
+  /-- `blk.get_header()` / `CBlockHeader(<the six header fields of the header or block at t>)` -/
+  | newHeaderFrom (t : Target)
+  /-- `CBlock(<the six header fields of the header or block at t>, vtx=[<roots>])`: same header fields
+      (explicit `hashMerkleRoot`), another transaction list (possibly none) -/
+  | newBlockFrom (t : Target) (txs : List Nat)
 deriving Repr
 
 /-! ### cells -/
@@ -484,6 +489,24 @@ def stepX (s : XStore) : OpX → XStore × Out
       | some r =>
         if refKind s.cells r ≠ some 3 then (s.skip, .na)
         else (s.skip, .err (if j.isSome then typeError else attributeError))
+  | .newHeaderFrom t =>
+      match s.target t with
+      | none => (s.skip, .badRef)
+      | some r =>
+        match eval s.cells r with
+        | some (.header h) => stepBase s (.newHeader h)
+        | some (.block b) => stepBase s (.newHeader b.hdr)
+        | some _ => (s.skip, .na)
+        | none => (s.skip, .badRef)
+  | .newBlockFrom t txs =>
+      match s.target t with
+      | none => (s.skip, .badRef)
+      | some r =>
+        match eval s.cells r with
+        | some (.header h) => stepBase s (.newBlock h txs)
+        | some (.block b) => stepBase s (.newBlock b.hdr txs)
+        | some _ => (s.skip, .na)
+        | none => (s.skip, .badRef)
 
 def runX : XStore → List OpX → XStore × List Out
   | s, [] => (s, [])
